@@ -30,11 +30,15 @@ pub struct ClientCfg {
     /// version-rewriting shim
     pub minor: u32,
     pub fault: Option<FaultPlan>,
+    /// fault on the broker side of this client's transport (gate statistics index n + i)
+    pub broker_fault: Option<FaultPlan>,
+    /// the client task is a slow peer: canonically scheduled only when nothing else is ready
+    pub slow: bool,
 }
 
 impl ClientCfg {
     pub fn new(transport: Transport, minor: u32) -> Self {
-        Self { transport, minor, fault: None }
+        Self { transport, minor, fault: None, broker_fault: None, slow: false }
     }
 }
 
@@ -126,7 +130,7 @@ impl Bench {
             let mut l = log.borrow_mut();
             l.client_results = vec![None; clients.len()];
             l.conn_results = vec![None; clients.len()];
-            l.gate = vec![GateStats::default(); clients.len()];
+            l.gate = vec![GateStats::default(); 2 * clients.len()];
         }
         for (i, cfg) in clients.iter().enumerate() {
             let (tc, tb) = match cfg.transport {
@@ -145,6 +149,7 @@ impl Bench {
             let ch: Rc<RefCell<Option<aldrin_broker::ConnectionHandle>>> = Rc::new(RefCell::new(None));
             let ch2 = ch.clone();
             conn_handles.push(ch);
+            let tb = Gate::new(tb, 20, cfg.broker_fault.clone(), log.clone(), clients.len() + i);
             let ct = exec.spawn(format!("conn{i}"), async move {
                 let r = match h.connect(tb).await {
                     Ok(conn) => {
@@ -175,6 +180,9 @@ impl Bench {
                 };
                 l3.borrow_mut().client_results[i] = Some(r);
             });
+            if cfg.slow {
+                exec.set_low_priority(t);
+            }
             client_tasks.push(t);
         }
         // distributor: waits for all handles, then starts the applications
